@@ -285,6 +285,9 @@ Section Backup.
                       Do (OpMkdir (DBand id)) (fun r3 => if is_ok r3 then
                       Do (OpMkdir (DIndex id)) (fun r4 => if is_ok r4 then
                       Do (OpWrite (PHead id) (PlHead HvOk) CreateNew) (fun r5 => if is_ok r5 then
+                      (* the lock again, now that the new band is visible ("fix: a backup could
+                         deduplicate against blocks a concurrent gc then deleted") *)
+                      Do (OpMeta PLock) (fun r5b => match r5b with RErr ENotFound =>
                       (* archive.block_dir() *)
                       Do (OpList DBlocks) (fun r6 =>
                         match r6 with
@@ -301,6 +304,7 @@ Section Backup.
                               end)
                         | _ => Ret fail0
                         end)
+                      | _ => Ret fail0 end)
                       else Ret fail0) else Ret fail0) else Ret fail0)
                   | _ => Ret fail0
                   end)
